@@ -80,6 +80,13 @@ CHECKS = {
             "independent reader must find exactly the expected form fields / URL parameters / SOAP body, and Entity.unravel must return the "
             "original (bytes for POST/Redirect, element-equal for SOAP).",
             PURE, "3/C14"),
+    "C15": ("exploration", "independent RSA verification + bounded-exhaustive histories + systematic schedule exploration (sys.monitoring gates, CHESS-style DFS)",
+            "Signs messages with Entity.apply_binding for all five algorithms and hostile RelayStates and verifies each URL independently (cryptography, raw "
+            "query octets) under all 12 fixture certificates; compares verify_redirect_signature with the independent verdict over 12 single-parameter "
+            "mutations; replays every history of obtain/sign/bind/verify steps up to a bounded length for entities with different keys; and explores "
+            "thread interleavings systematically: sys.monitoring PY_START/LINE events in RSACrypto.get_signer and RSASigner.sign are gates, a "
+            "controller enumerates all schedules depth first (entry-level: all; line-level: preemption-bounded), plus free-running threads.",
+            PURE, "3/C15"),
     "C18": ("exploration", "reference-model monitor over operation histories (bounded-exhaustive + random), invariants after every step",
             "Replays every operation history up to a bounded depth over 2 users x 2 SPs (abstract-state pruned), long random histories on "
             "dict- and shelve-backed IdentDB, hostile field contents and the adversarial user-id class against a dictionary model; after each "
